@@ -669,7 +669,9 @@ EvGuards(e) ==
             \* C01: at rest every batch a topic accepted has reached the subscriptions it was fanned
             \* out to (a topic answers a Publish only after all posts): nothing accepted is pending
             \* for a live subscription (C16 too when a request was abandoned earlier)
-            { G(IF gone # {} THEN "C01,C16" ELSE "C01", \A si \in DOMAIN S : S[si].st = "live" => S[si].inbox = <<>>) } \cup
+            { G(IF gone # {} THEN "C01,C16" ELSE "C01", \A si \in DOMAIN S : S[si].st = "live" => S[si].inbox = <<>>),
+              \* ... and the push registry lists exactly the live subscriptions with a push endpoint
+              G(IF gone # {} THEN "C14,C16" ELSE "C14", C14_RegistryExact) } \cup
             { G("C07", \A c \in DOMAIN pend : StreamAlive(c) => CtrlPartDone(c, TRUE)),
               G("C03,C05,C07", \A c \in DOMAIN pend : StreamAlive(c) => CtrlPartDone(c, FALSE)) }
       [] e.k = "hang" ->
@@ -707,7 +709,9 @@ EvGuards(e) ==
               \* no call is pending any more: a subscription whose deletion began but never finished is
               \* stuck half deleted for ever (still registered under its name, serves nothing)
               G("C10,C11", \A si \in DOMAIN S : S[si].st # "deleting"),
-              G("C14", C14_RegistryExact),
+              \* (after an abandoned request: a subscription that exists but is not registered for push is
+              \* half created - C16)
+              G(IF gone # {} THEN "C14,C16" ELSE "C14", C14_RegistryExact),
               G("C16", C16_Attached) }
       [] OTHER -> { G("BIND", FALSE) }
 
